@@ -204,6 +204,33 @@ def run(ctx):
                     ctx.case(key=('diff', row['cores'], a1, nn), nontrivial=True)
     if mirror_bad:
         raise tlc.TlcError('numpy chebval / chebder mirror disagrees with TLC on %d cases' % mirror_bad)
+    # --- one step beyond the tabulated grids: 17..65 nodes per mode, polynomial of degree n_k - 1 with coefficients of
+    #     decaying size (values ~1): coefficients -> values on the grid -> coefficients, evaluation at random points, integral
+    for t in range(4 if quick else 30):
+        d = 2 + t % 2
+        n = [int(x) for x in rng.choice([17, 24, 33, 48, 65], size=d)]
+        A = [rng.normal(size=(1 if k == 0 else 2, n[k], 2 if k < d - 1 else 1)) / (1. + np.arange(n[k]))[None, :, None] for k in range(d)]
+        Cl = F.dense(A)
+        box = [(-1., 1.), (0.5, 2.25), (-3., 5.)][t % 3]
+        a_, b_ = np.array([box[0]] * d), np.array([box[1]] * d)
+        Xl = rng.uniform(box[0], box[1], size=(30, d))
+        Tl = (2. * Xl - (a_ + b_)) / (b_ - a_)
+        refl = cheb_eval_dense(Cl, Tl)
+        scl = float(np.abs(Cl).sum())
+        ctx.case(key=('large-grid', n, box), nontrivial=True)
+        okl = dev(teneva.func_get(Xl, A, a_, b_), refl) <= 1e-10 * scl
+        Yl = teneva.func_gets(A)
+        Al = teneva.func_int(Yl)
+        okl2 = F.is_wellformed(Al, n) and dev(F.dense(Al), Cl) <= 1e-10 * scl
+        c0 = [np.array([(0. if j % 2 else 2. / (1 - j * j)) for j in range(k)]) for k in n]         # integrals of T_j over [-1, 1]
+        Iref = Cl
+        for k in range(d):
+            Iref = np.tensordot(c0[k], Iref, axes=([0], [0]))
+        Iref = float(Iref) * float(np.prod((b_ - a_) / 2.))
+        okl3 = abs(teneva.func_sum(A, a_, b_) - Iref) <= 1e-10 * scl * float(np.prod(b_ - a_))
+        ctx.check(okl, 'func_get:value', 'grid %s, box %s: func_get differs from the polynomial by %.3g' % (n, box, dev(teneva.func_get(Xl, A, a_, b_), refl)))
+        ctx.check(okl2, 'func_int:pad', 'grid %s: func_int(func_gets(A)) is not A' % n)
+        ctx.check(okl3, 'func_sum:value', 'grid %s, box %s: func_sum differs from the exact integral' % (n, box))
     # --- linearity, general bases, sine kind (float, sampled)
     for t in range(10 if quick else 80):
         d = int(rng.integers(2, 4))
